@@ -92,6 +92,9 @@ func DecodeAudioSampleEntry(hdr BoxHeader, startPos uint64, r io.Reader) (Box, e
 	a.SampleSize = sr.ReadUint16()
 	sr.SkipBytes(4) // Predefined + reserved
 	a.SampleRate = makeUint16FromFixed32(sr.ReadUint32())
+	if sr.AccError() != nil {
+		return nil, sr.AccError()
+	}
 
 	remaining := sr.RemainingBytes()
 	restReader := bytes.NewReader(remaining)
